@@ -162,8 +162,25 @@ _ABSTRACT_MAPPING: t.Mapping[type, type] = t.cast(t.Mapping[type, type], {
 """Mapping to attempt to choose a simple concrete type for abstract/base collection types"""
 
 
+class _IdKey:
+    """
+    Cache key comparing by object identity (types may be unhashable, or equal without being interchangeable).
+    Unlike a bare `id()`, it keeps the object alive, so the id can't be recycled for another type while cached.
+    """
+    __slots__ = ('obj',)
+
+    def __init__(self, obj: t.Any):
+        self.obj = obj
+
+    def __hash__(self) -> int:
+        return id(self.obj)
+
+    def __eq__(self, other: t.Any) -> bool:
+        return isinstance(other, _IdKey) and self.obj is other.obj
+
+
 def _make_converter_key_f(ty: IntoConverter, handlers: ConverterHandlers = ConverterHandlers()) -> t.Any:
-    return (id(ty), handlers)
+    return (_IdKey(ty), handlers)
 
 
 @t.overload
